@@ -79,7 +79,7 @@ class Circle(Shape2D):
             scale (float):
                 Scale factor.
         """
-        self.radius *= scale
+        self.radius = self.radius * scale
 
     @property
     def area(self):
